@@ -119,6 +119,7 @@
     }
     // ---- FIPS 204 Algorithm 34 (ExpandMask): polynomial number r of attempt kappa is BitUnpack(H(rho'' || IntegerToBytes(kappa + r, 2), 32c))
     pub open spec fn mask_seed(rho: Seq<u8>, n: int) -> Seq<u8> { rho + seq![(n % 256) as u8, (n / 256) as u8] }
+    #[verifier::opaque]
     pub open spec fn spec_mask_coef(rho: Seq<u8>, n: int, gamma1: int, j: int) -> int {
         let c = 1 + spec_bitlen(gamma1 - 1);
         spec_unpack_coef(stream_take(shake256(mask_seed(rho, n)), 0, 32 * c), gamma1 - 1, gamma1, j)
